@@ -67,6 +67,7 @@ def run(ctx):
             locate_by_tag(ctx, f, b, sw, arms[v], v, buf)
     ctx.floor("R11.2", n, 11)
     r11_3(ctx, f, b, buf)
+    r11_8(ctx, f, b, buf)
     bulk_tags(ctx, f, sw, arms, buf)
     # poll function: end-of-stream and typestate
     for pf, sites in wakers.poll_fns(F, (UT,)):
@@ -551,3 +552,40 @@ def bulk_tags(ctx, f, sw, arms, buf):
                     srcs = [x[4] for x in find_all(buf_expr, lambda y: y[0] == "call" and ecall_matches(y, r"Iterator>?::collect$"))]
                     same = any(contains(vals, lambda y, l=l: y[0] == "call" and y[4] == l) for l in srcs)
                     ctx.verdict(True if same else None, "R11.5", g, "initial-values=buffer-order", gb.line_at(loc), "the returned initial values are read from the sorted buffer the adapter keeps")
+
+
+def r11_8(ctx, f, b, buf):
+    """inside a loop that changes the sorted buffer, a position found in the *current* buffer (binary search, partition
+    point, position) is never compared with a length of the buffer that was read before the loop: after the first insertion
+    that length is stale and the end-of-buffer test misfires (items are then appended behind greater ones)."""
+    from .adapters import natural_loops
+    n = 0
+    for h, blks in natural_loops(b):
+        muts = [blk for blk in blks if b.term(blk)["k"] == "call" and imbl_method(b.term(blk)) in STRUCT and is_buf(b, b.term(blk)["args"][0], buf)]
+        if not muts:
+            continue
+        for sblk in sorted(blks):
+            info = conds.switch_info(b, sblk)
+            if not info:
+                continue
+            for t_, fs in info["edges"].items():
+                for fct in fs:
+                    if fct[0] != "cmp":
+                        continue
+                    for pos, ln in ((fct[2], fct[3]), (fct[3], fct[2])):
+                        is_pos = contains(pos, lambda y: y[0] == "call" and ecall_matches(y, r"::binary_search_by$|::partition_point$|Iterator>?::position$"))
+                        x = strip(ln, through_calls=False)
+                        if not is_pos or not (x[0] == "call" and ecall_matches(x, r"GenericVector::<.*>::len$") and x[3] and is_buf_expr(x[3][0], buf)):
+                            continue
+                        n += 1
+                        stale = x[4] is not None and x[4][0] not in blks
+                        ctx.verdict(not stale, "R11.8", f, "position-vs-current-length", b.line_at((sblk, 10 ** 6)),
+                                    "the length compared with the searched position is read inside the loop (bb%s)" % (x[4][0] if x[4] else "?"),
+                                    "sort translator: inside the loop that inserts into the sorted buffer (bb%s) a position found in the current buffer is compared with `len()` read before the loop (bb%s): after the first insertion that length is stale, so a valid position equal to the old length is treated as the end of the buffer" % (muts[0], x[4][0] if x[4] else "?"))
+    if not n:
+        ctx.undecided("R11.8", f, "position-vs-current-length", f.loc(), "no loop compares a searched position with the buffer's length")
+
+
+def is_buf_expr(e, buf):
+    x = strip(e)
+    return x[0] == "param" and x[1] == buf
